@@ -23,5 +23,6 @@ INVARIANT StateMachineSafety
 INVARIANT ApplyLogOK
 INVARIANT plogOK
 INVARIANT OrderOK
+INVARIANT ElectableComplete
 PROPERTY FLeaderAppendOnly
 CHECK_DEADLOCK FALSE
